@@ -108,6 +108,19 @@ pub fn generate(seed: u64, tier: &str) -> Scenario {
             );
         }
     }
+    // every eighth scenario: a restored layer's <name>.toml is not TOML at all (truncated by a
+    // crashed build) and the next build requests that layer again
+    if r.chance(1, 8) {
+        if let Some((j, op)) = history.ops.iter().enumerate().rev().find_map(|(j, op)| match op {
+            Op::Cached { .. } | Op::Uncached { .. } => Some((j, op.clone())),
+            _ => None,
+        }) {
+            if let Some(layer) = op.layer() {
+                history.ops.insert(j + 1, op);
+                history.ops.insert(j + 1, Op::CorruptToml { layer });
+            }
+        }
+    }
     let sb = |r: &mut Rng| -> Vec<SbomSpec> {
         (0..r.usize(3))
             .map(|_| {
